@@ -185,6 +185,7 @@ def wbs_view(w, dates=True, sort_links=False):
     srt = sorted if sort_links else (lambda x, key=None: list(x))
     for t in w.tasks:
         d = dict(t.to_dict())
+        d.update(estimate=t.estimate, spent=t.spent, start=t.start, end=t.end)          # estimate / spent are properties: to_dict() does not list them
         if not dates:
             for k in ('start', 'end', 'estimate', 'spent'): d.pop(k, None)
         out.append((t.id, t.parent.id if t.parent else None, tuple(srt([p.id for p in t.predecessors], key=repr)), tuple(srt([s.id for s in t.successors], key=repr)),
@@ -245,7 +246,8 @@ def run_case(seed, index, props, direction=None, verbose=False):
     outcome = None
     rs_main = mk()
     try:
-        s = with_timeout(20, lambda: sched(rs_main).calc(w))
+        sc_main = sched(rs_main)
+        s = with_timeout(20, lambda: sc_main.calc(w))
         outcome = 'ok'
     except RecursionError:
         outcome = 'RecursionError'
@@ -304,14 +306,15 @@ def run_case(seed, index, props, direction=None, verbose=False):
     if editable and (props & {'C03', 'C06', 'C08', 'C09', 'C04'}):
         for r in editable:
             r.calendar.set_units({datetime(2024, m, d): 8 for m in (1, 2) for d in range(1, 29, 2)})
-        try:
-            s4 = sched(rs_main).calc(w)
-            R2 = Run(props); check_result(R2, w, s4, direction, balance, bound, clock, defest, tags)
-            for c, d in R2.viol: R.bad(c, d + ' [second call after DirectCalendar.set_units on the same Resource]')
-        except RuntimeError:
-            pass
-        except Exception as e:
-            for pid in sorted(props): R.bad(f'{pid} returned schedule is inconsistent with the input WBS ({type(e).__name__} while evaluating the clauses)', 'second call after set_units')
+        for who, mk_s in (('a new scheduler', lambda: sched(rs_main)), ('the SAME scheduler object', lambda: sc_main)):
+            try:
+                s4 = mk_s().calc(w)
+                R2 = Run(props); check_result(R2, w, s4, direction, balance, bound, clock, defest, tags)
+                for c, d in R2.viol: R.bad(c, d + f' [second call, by {who}, after DirectCalendar.set_units on the same Resource]')
+            except RuntimeError:
+                pass
+            except Exception as e:
+                for pid in sorted(props): R.bad(f'{pid} returned schedule is inconsistent with the input WBS ({type(e).__name__} while evaluating the clauses)', f'second call by {who} after set_units')
     # ---- C08: balancing off => independent of unrelated tasks
     if 'C08' in props and direction == 'fwd' and not balance and 'outside-link' not in tags:
         independence(R, w, s, sched, mk, rng)
